@@ -442,10 +442,19 @@ func (e *daemonEngine) probe(n *dNode, when string) {
 		{MDKGPacket, &pdkg.GossipPacket{Metadata: &pdkg.GossipMetadata{BeaconID: "default", Address: e.nodes[0].addr, Signature: []byte(fmt.Sprintf("probe-%s-%d-%d", when, n.idx, time.Now().UnixNano()))},
 			Packet: &pdkg.GossipPacket_Abort{Abort: &pdkg.AbortDKG{Reason: "probe"}}}, "probe-gossip", false},
 	}
+	snap := func() (int, bool) {
+		n.mu.Lock()
+		defer n.mu.Unlock()
+		return n.routeVer, n.stopped["default"] || n.limbo["default"]
+	}
 	for _, p := range probes {
+		ver, off := snap()
 		ok, err := e.timedCall(n, p.method, p.msg, p.label, 15*time.Second)
 		if !ok {
 			return
+		}
+		if v2, off2 := snap(); off || off2 || v2 != ver || ver%2 == 1 {
+			continue // the operator stopped or (re)loaded the chain around this request: a refusal is in order
 		}
 		if p.mustOK && err != nil {
 			e.rec.Violate("C14", "valid-request-refused-after-hostile-traffic", p.label, "node %s (%s): %s failed: %v", n.addr, when, p.method, err)
